@@ -38,6 +38,7 @@ type dict interface {
 	Lists() (keys, values, items int)
 	Marshal() (*boc.Cell, error)
 	Unmarshal(c *boc.Cell) error
+	UnmarshalUsed(c *boc.Cell) error // decodes into the dictionary value as it is, without starting from a fresh one
 	Fresh() dict
 	RefValues() bool
 }
@@ -95,6 +96,7 @@ func (d *gdict[K, V]) Unmarshal(c *boc.Cell) error {
 	d.h = h
 	return nil
 }
+func (d *gdict[K, V]) UnmarshalUsed(c *boc.Cell) error { return tlb.Unmarshal(c, &d.h) }
 func (d *gdict[K, V]) Fresh() dict {
 	return &gdict[K, V]{n: d.n, fromBits: d.fromBits, toBits: d.toBits, toV: d.toV, fromV: d.fromV, refVal: d.refVal}
 }
@@ -373,6 +375,27 @@ var dictCheck = &core.Check{Name: "c05/dict", Quick: 3000, Thorough: 250000, Fn:
 	}
 	if err := compareWithModel(back, model, kind.name+" decoded from own encoding"); err != nil {
 		return err
+	}
+	// a dictionary variable that already holds entries is used as the destination of another decode: first the
+	// empty dictionary (hme_empty$0), then the original again
+	if len(model) > 0 {
+		empty := boc.NewCell()
+		empty.WriteBit(false)
+		if err := back.UnmarshalUsed(empty); err != nil {
+			return fmt.Errorf("%s: the empty dictionary does not decode into a used variable: %v", kind.name, err)
+		}
+		if err := compareWithModel(back, map[string]uint32{}, kind.name+" after decoding the empty dictionary into a variable that held "+fmt.Sprint(len(model))+" entries"); err != nil {
+			return err
+		}
+		cell.ResetCounters()
+		if err := back.UnmarshalUsed(cell); err != nil {
+			return fmt.Errorf("%s: own encoding does not decode into a used variable: %v", kind.name, err)
+		}
+		if err := compareWithModel(back, model, kind.name+" decoded into a used variable"); err != nil {
+			return err
+		}
+		cell.ResetCounters()
+		c.Class("decoded into a used variable")
 	}
 	// (b) the reference decoder reads tongo's encoding
 	got, err := decodeWithRef(cell, n)
